@@ -51,10 +51,12 @@ def gen_cases(tier, seed):
     profiles = ['slow-consumer', 'slow-worker', 'slow-source', 'fast', 'bursty']
     reps = 1 if tier == 'quick' else 12
     for rep in range(reps):
-        for op in ('fifo', 'parmap-thread', 'buffer', 'parmap-async'):
+        for op in ('fifo', 'parmap-thread', 'buffer', 'parmap-async', 'aparmap-thread', 'aparmap-async', 'abuffer'):
             for size in ([1, 2, 3, 6] if tier == 'quick' else [1, 2, 3, 4, 6, 8]):
                 for prof in profiles:
-                    if op == 'buffer' and prof == 'slow-worker':
+                    if op in ('buffer', 'abuffer') and prof == 'slow-worker':
+                        continue
+                    if op.startswith('a') and prof == 'bursty' and tier == 'quick':
                         continue
                     length = rng.choice([50, 200, 600] if tier == 'quick' else [50, 200, 1000, 2000])
                     unbounded = rng.random() < 0.3
@@ -81,10 +83,11 @@ def run_case(case):
     op, size, prof, n = case['op'], case['size'], case['profile'], case['length']
     if op in ('fifo',):
         bound, conc = size + 3, None
-    elif op in ('parmap-thread', 'parmap-process', 'parmap-async'):
+    elif op in ('parmap-thread', 'parmap-process', 'parmap-async', 'aparmap-thread', 'aparmap-async'):
         bound, conc = 2 * size + 3, size
     else:
         bound, conc = size + 2, None
+    is_async_stream = op in ('aparmap-thread', 'aparmap-async', 'abuffer')
     led = gates.Ledger(gap_bound=bound, running_bound=conc)
     cons_pause = None
     work_sleep = 0.0
@@ -142,6 +145,9 @@ def run_case(case):
     elif op == 'parmap-async':
         pool = None
         it = iter(S.Stream(src).parmap(awork, concurrency=size))
+    elif is_async_stream:
+        pool = None
+        it = None
     else:
         pool = None
         it = iter(S.Stream(src).buffer(size))
@@ -149,7 +155,44 @@ def run_case(case):
     fz = schedfuzz.SchedFuzz(seed=case['seed'], p=0.02) if case['fuzz'] else schedfuzz.NullFuzz()
     fz.add(Q.SingleLane.put, Q.SingleLane.get, S.fifo_stream, S.Buffer._run_worker, S.Buffer.__iter__)
 
+    def abody():
+        import mpservice.streamer._streamer_async as SA
+
+        async def asrc():
+            for x in src:
+                yield x
+
+        async def main():
+            st = SA.AsyncStream(asrc())
+            if op == 'aparmap-thread':
+                st = st.parmap(work, executor='thread', concurrency=size)
+            elif op == 'aparmap-async':
+                st = st.parmap(awork, concurrency=size)
+            else:
+                st = st.buffer(size)
+            ait = st.__aiter__()
+            k = 0
+            try:
+                async for z in ait:
+                    led.receive()
+                    k += 1
+                    if cons_pause:
+                        p = cons_pause(k)
+                        if p:
+                            await asyncio.sleep(p)
+                    if k >= take:
+                        break
+            finally:
+                aclose = getattr(ait, 'aclose', None)
+                if aclose:
+                    await aclose()
+            return k
+
+        return asyncio.run(main())
+
     def body():
+        if is_async_stream:
+            return abody()
         k = 0
         try:
             for z in it:
@@ -194,11 +237,11 @@ def run_case(case):
             viol.append({'mech': f'{op}/lookahead-exceeded', 'msg': f'pulled-received = {v[1]} > bound {bound} (pulled {v[2]}, received {v[3]}); size {size}, profile {prof}'})
         else:
             mech = f'{op}/concurrency-exceeded'
-            if op == 'parmap-async':
+            if op in ('parmap-async', 'aparmap-async'):
                 # known finding: the async-function parmappers bound the running calls only by the look-ahead window
                 # (2*concurrency+3), not by `concurrency`.  Anything beyond the window is a different violation.
-                mech = (f'{op}/concurrency-exceeded-within-lookahead-window' if led.max_running <= bound
-                        else f'{op}/concurrency-exceeded-beyond-lookahead-window')
+                mech = ('parmap-async/concurrency-exceeded-within-lookahead-window' if led.max_running <= bound
+                        else 'parmap-async/concurrency-exceeded-beyond-lookahead-window')
             viol.append({'mech': mech, 'msg': f'{led.max_running} calls running with concurrency {conc}; profile {prof}'})
         break
     if case['unbounded'] and led.pulled > take + bound:
